@@ -54,6 +54,26 @@ macro_rules! ensure_soft {
     };
 }
 
+thread_local! {
+    static LAST_PANIC_LOC: std::cell::RefCell<String> = const { std::cell::RefCell::new(String::new()) };
+}
+
+/// Called by the process-wide panic hook.
+pub fn note_panic_location(loc: String) {
+    LAST_PANIC_LOC.with(|l| *l.borrow_mut() = loc);
+}
+
+/// Source location of the last panic raised on this thread ("" if unknown).
+pub fn last_panic_location() -> String {
+    LAST_PANIC_LOC.with(|l| l.borrow().clone())
+}
+
+/// True if the location lies in the library under test (the gecs runtime crate), not in the harness or in code the macros
+/// expanded inside the harness.
+pub fn location_in_library(loc: &str) -> bool {
+    !loc.is_empty() && !loc.contains("/hx/src/") && !loc.contains("hx/build") && (loc.contains("src/archetype/") || loc.contains("src/entity.rs") || loc.contains("src/version.rs") || loc.contains("src/index.rs") || loc.contains("src/traits.rs") || loc.contains("src/util.rs") || loc.contains("src/iter.rs"))
+}
+
 pub fn panic_msg(p: &Box<dyn std::any::Any + Send>) -> String {
     if let Some(s) = p.downcast_ref::<&str>() {
         s.to_string()
@@ -872,7 +892,7 @@ impl Sys {
             let any: EntityAny = e.into();
             let bits = any.raw();
             // A reissued handle breaks C08 and, at the same moment, C01: every stale copy of the old handle now resolves.
-            ensure!(!m.issued(bits), "C08,C01", "handle-reissued", "create returned {:?} whose bits {:?} were issued before in this world (every stale copy of that handle now designates the new entity)", e, bits);
+            ensure!(!m.issued(bits), "C08,C01,C14", "handle-reissued", "create returned {:?} whose bits {:?} were issued before in this world (every stale copy of that handle now designates the new entity)", e, bits);
             ensure!(e.archetype_id() == A::ARCHETYPE_ID && any.archetype_id() == A::ARCHETYPE_ID && (bits.0 & 0xff) as u8 == A::ARCHETYPE_ID,
                 "C14", "archetype-id-of-created-handle", "handle {:?} created by {} does not carry ARCHETYPE_ID {}", any, A::NAME, A::ARCHETYPE_ID);
             ensure_soft!(self.sc, len1 == len0 + 1 && !empty1, "C12", "len-after-create", "len went from {} to {} on create", len0, len1);
